@@ -82,14 +82,6 @@ def main(argv=None):
             print(s, file=sys.stderr)
         return 2
 
-    # nontriviality guards declared by the property (harness errors, not violations)
-    guard = getattr(_MOD, 'nontrivial_guard', None)
-    if guard:
-        msg = guard(total, args.tier)
-        if msg:
-            print(f'HARNESS-ERROR property={pid}: vacuous exploration: {msg}', file=sys.stderr)
-            return 2
-
     # ---- determinism guard: replay one witness per signature from scratch ----------------------------
     sigs = {}
     for v in total.violations:
@@ -111,6 +103,14 @@ def main(argv=None):
     for s, k in known_sigs.items():
         if s in seen_known:
             lines.append(f"KNOWN-FINDING: property={pid} {k['what']} [{s}] witnesses={total.sigcount[s]}")
+    # nontriviality guards declared by the property: a run that found nothing *and* explored (almost) nothing
+    # non-trivial is a harness error, not a pass
+    guard = getattr(_MOD, 'nontrivial_guard', None)
+    if guard and not new:
+        msg = guard(total, args.tier)
+        if msg:
+            print(f'HARNESS-ERROR property={pid}: vacuous exploration: {msg}', file=sys.stderr)
+            return 2
     rc = 0
     for s, v in new.items():
         path = os.path.join(rdir, digest(s, 16) + '.json')
